@@ -517,7 +517,13 @@ def check_records(ctx, runs):
         ctx.count('model:' + ('ok' if 'ok' in model else str(model['error'])))
         if 'ok' in model:
             ctx.count('model-writes:%d' % min(len(model['ok']), 12))
-        if model != real:
+        if 'error' in real and real['error'] != 'UnresolvableCyclicDependency':
+            # the backend refused a statement (reported by the oracle): the model must have predicted the statements up to it
+            pt = canon_model(rec['partial_trace'] or [])
+            if not ('ok' in model and model['ok'][:len(pt)] == pt):
+                ctx.divergence('statements before the refused one differ from the model', {'spec': r.spec, 'history': r.hist, 'request': rec['request'], 'strict': r.strict}, model=model, impl={'error': real['error'], 'statements': pt})
+            ctx.count('model-prefix-checked')
+        elif model != real:
             ctx.divergence('model flush and real flush disagree', {'spec': r.spec, 'history': r.hist, 'request': rec['request'], 'strict': r.strict}, model=model, impl=real)
         # the engine's own cycle analysis must agree with the model's verdict (three-way agreement)
         if rec['cyclic'] != (model.get('error') == 'UnresolvableCyclicDependency'):
@@ -546,13 +552,22 @@ def explore(ctx, strict, nhist):
             report(ctx, spec2, hist2, strict, what, detail)
     return runs
 
+STRICT_DELETE_KEY = 'strict-schema:DELETE-refused:delete-order-relies-on-ON-DELETE'
+
 def report(ctx, spec, hist, strict, what, detail):
     ps = try_history(ctx, spec, hist, strict)
     det = next((p[1] for p in ps if p[0] == what), detail)
+    key = 'c16:' + json.dumps([spec, hist, strict], sort_keys=True)
     if strict:
+        # one class of failures has a canonical key: the strict backend refuses a DELETE (the last traced statement) of a
+        # history that Pony's own DDL (ON DELETE SET NULL / CASCADE) accepts
+        st = (det or {}).get('statements_so_far') if isinstance(det, dict) else None
+        if what.startswith('flush raised') and st and st[-1][0] == 'delete' and 'FOREIGN KEY' in str(det.get('error')) \
+                and not try_history(ctx, spec, hist, False):
+            key = STRICT_DELETE_KEY
+            ctx.count('strict:delete-refused')
         what = 'with the ON DELETE clauses removed from the schema: ' + what
-    ctx.violation(what, {'spec': spec, 'history': hist, 'strict': strict}, observed=det, expected='flush succeeds / database unchanged',
-                  key='c16:' + json.dumps([spec, hist, strict], sort_keys=True))
+    ctx.violation(what, {'spec': spec, 'history': hist, 'strict': strict}, observed=det, expected='flush succeeds / database unchanged', key=key)
 
 def run(ctx):
     n = ctx.scale(120, 1500)
